@@ -34,8 +34,8 @@ PROPS = {
         level_text="Proved for every reachable model state and script: a PrepareResponse is broadcast only with all transactions held and names the hash of the proposal in the primary's slot; Commit/PreCommit only with M current-view preparations including a request and all transactions. Proved over all started histories: in a view v > 0 the node holds M kept ChangeView requests for v or above. Not proved: 'the verification callback accepted the block' (exercised).",
         level_note="response/commit/pre-commit gates and the view-entry condition proved; the verification-accepted clause exercised"),
     "C05": dict(family="node", level="proof", title="One decision per height, quiescence, clean re-initialisation",
-        level_text="Proved: ProcessBlock only while undecided (at most one hand-over per height) and only recovery messages are broadcast after the decision, for every reachable state; timeouts, transactions and non-recovery payloads after the decision change nothing (every state). Not proved: the clean re-initialisation / early-payload clauses (exercised by monitors + correspondence).",
-        level_note="partial: decision-once and quiescence proved; re-initialisation clauses exercised"),
+        level_text="Proved: ProcessBlock only while undecided (at most one hand-over per height) and only recovery messages are broadcast after the decision, for every reachable state; timeouts, transactions and non-recovery payloads after the decision change nothing (every state). Also proved (every state): a view-0 reset asks PrevHash, Height, Validators, TimePerBlock and leaves exactly those values with view 0, own index from the key-pair callback, all payload tables empty, nothing decided; an early payload for a later height is kept and changes nothing else. That the kept payloads are replayed and nothing else of earlier heights influences later decisions is exercised.",
+        level_note="decision-once, quiescence, fresh re-initialisation and keeping of early payloads proved; replay of kept payloads exercised"),
     "C06": dict(family="quorum", level="proof", title="Quorum arithmetic and primary rotation",
         level_text="Proved for every validator count N >= 1: F = (N-1)/3, M = N-F, any two quorums share more than F validators, a quorum never needs a faulty one, the primary is (h-v) mod N, in range, and over N consecutive views or heights every validator is primary exactly once; the node model uses exactly these expressions. The rotation clause fails across the uint32 wrap of the height (refuted with a witness: known finding D14).",
         level_note="full proof for every N; tie: the real Context's N/F/M/GetPrimaryIndex compared with the extracted functions over a sweep of N, heights and views",
@@ -68,8 +68,8 @@ PROPS = {
         level_text="Proved: every PrepareRequest broadcast in any reachable history carries the context's timestamp, nonce and transaction list for the node's epoch, with timestamp >= previous + increment (strictly greater without uint64 overflow); Fill takes exactly the pool's transactions, the truncated clock when larger and the nonce; the own header is built from the same context values.",
         level_note="proved on the model in three theorems; the link Fill->broadcast within one call is by the model's sendPrepareRequest"),
     "C16": dict(family="node", level="proof", title="Dynamic block time",
-        level_text="Proved: the subscription callback is used only when the extension is configured (every reachable state). The timing clauses are statements about synchronous runs, decided by monitors on runs of the real library (sync mode c16, corpus scenario 1013).",
-        level_note="partial: subscription clause proved; timing clauses exercised"),
+        level_text="Proved: the subscription callback is used only when the extension is configured (every reachable state); an idle backup at view 0 subscribes and re-arms instead of asking for a view change; a notification at a waiting primary produces the proposal in that call (every state meeting the conditions). Spacing of proposals and 'empty blocks only after the maximum interval' are statements about synchronous runs, decided by monitors on runs of the real library (sync mode c16, corpus scenario 1013).",
+        level_note="subscription, no-idle-view-change and prompt-proposal clauses proved; spacing/maximum-interval clauses exercised"),
     "C17": dict(family="sim", level="proof", title="The bundled simulation keeps extending its chain",
         level_text="Proved on a model of the simulation's driver loop whose shape (which event kinds are followed by the height check and Reset) is regenerated from internal/simulation on every run: for every event sequence the chain grows as often as the library decides; the loop without the check stalls at the first block (the defect repaired by fix D6). The progress of the real binary is observed by running it.",
         level_note="theorem on a translated loop shape (tools/simshape.py) + running the shipped simulation binary; timing ('roughly the block interval') is observed, not proved",
@@ -83,8 +83,8 @@ PROPS = {
         level_note="partial: Merkle structure proved; codec/hash/signature clauses are exercised on the real code (crypto primitives are outside what a Gallina model can carry)",
         technique="machine-checked proof in Coq 8.16.1 (Merkle/SHA-256 models) + correspondence check with internal/merkle, internal/crypto, internal/consensus"),
     "C20": dict(family="tla", level="proof", title="The shipped TLA+ models keep their invariants",
-        level_text="The shipped specifications are translated to Gallina on every run (tla2coq from SANY's XML); InvTwoBlocksAccepted is proved inductive on the generated dbft and anti-MEV models for EVERY duplicate-free RM (any N, any view bound); the dbftCV3 model violates it with the permitted fault set (witness checked by vm_compute: known finding D13). TypeOK and the fault-count invariant are decided for the shipped configurations (N=4) by TLC, cross-checked edge by edge against the generated Gallina Next.",
-        level_note="InvTwoBlocksAccepted proved unboundedly on the translated models; TypeOK/InvFaultNodesCount by explicit-state model checking of the shipped configurations (not a proof)",
+        level_text="The shipped specifications are translated to Gallina on every run (tla2coq from SANY's XML); InvTwoBlocksAccepted is proved inductive on the generated dbft and anti-MEV models for EVERY duplicate-free RM (any N, any view bound); the dbftCV3 model violates it with the permitted fault set (witness checked by vm_compute: known finding D13). TypeOK and InvFaultNodesCount are proved for every RM on the same two models (the latter when faulty and dead nodes number at most F together, as in every shipped configuration). The three larger specs are decided for the shipped configurations (N=4) by TLC, cross-checked edge by edge against the generated Gallina Next.",
+        level_note="all three invariants proved unboundedly on the translated dbft and anti-MEV models; the three larger specs by explicit-state model checking of the shipped configurations (not a proof); CV3 violates InvTwoBlocksAccepted (known finding D13)",
         technique="translator (TLA+ -> Gallina) + machine-checked proof in Coq 8.16.1 on the generated models; TLC for the finite configurations"),
 }
 for _k, _v in PROPS.items():
